@@ -59,6 +59,8 @@ impl SignedPeersStore {
 
             let mut chunk = vec![0_u8; info_hash_lru.iter().len() * 4];
             getrandom::fill(chunk.as_mut_slice()).expect("getrandom");
+            #[cfg(mainline_verif)]
+            crate::verif::fill(chunk.as_mut_slice());
 
             for (index, (_, signed_announce)) in info_hash_lru.iter().enumerate() {
                 // Calculate the chance of adding the current item based on remaining items and slots
